@@ -32,6 +32,8 @@ var c13StringClasses = []struct {
 	{"combining", []string{"é", "ạ̈"}},
 	{"bom-zw", []string{"\ufeff", "a\u200bb"}},
 	{"quote-like", []string{"'", "`", "''"}},
+	{"percent", []string{"%", "50%", "%d items", "%%", "100%s", "%v%v", "a%!b", "%!(EXTRA)"}},
+	{"ascii-punct", []string{"!", "@", "#", "$", "^", "&", "*", "-", "+", "=", "|", ":", "<", ">", "?", "/", "~", "{", "}", ".", "_", "a.b", "a-b", "&&", "||", "!=", "<=", "{}", "$1", "#1", "a@b.c", "~/x", "^$", "*/", "/*"}},
 	{"number-like", []string{"1", "-5", "1.2.3", "true", "false", "2021-01-02"}},
 }
 
@@ -78,6 +80,12 @@ func classifyString(s string) []string {
 	}
 	if strings.ContainsAny(s, "'`") {
 		add("quote-like")
+	}
+	if strings.Contains(s, "%") {
+		add("percent")
+	}
+	if strings.ContainsAny(s, "!@#$^&*-+=|:<>?/~{}._") {
+		add("ascii-punct")
 	}
 	if len(s) > 0 && (s[0] == '-' || (s[0] >= '0' && s[0] <= '9') || s == "true" || s == "false") {
 		add("number-like")
